@@ -1270,6 +1270,21 @@ func (m *Manager) Unlock(ns walletdb.ReadBucket, passphrase []byte) error {
 	// Use the crypto private key to decrypt all of the account private
 	// extended keys.
 	for _, manager := range m.scopedManagers {
+		// The account of an address whose private key is pending
+		// derivation may have been dropped from the cache since the
+		// address was created. Load it first: an account that is only
+		// loaded by the derivation below would miss the decryption of
+		// its private key and stay without one while unlocked.
+		for _, info := range manager.deriveOnUnlock {
+			_, err := manager.loadAccountInfo(
+				ns, info.managedAddr.InternalAccount(),
+			)
+			if err != nil && !IsError(err, ErrAccountNotFound) {
+				m.lock()
+				return err
+			}
+		}
+
 		for account, acctInfo := range manager.acctInfo {
 			// Accounts without a private key (imported extended
 			// public keys) have nothing to decrypt.
